@@ -343,6 +343,100 @@ class Gen:
                 self.add("xsets 0 %d %d" % (n, vlen), op="xsets", n=n, vlen=vlen)
 
 
+
+    # -- whole trees: fstree_add_generic + fstree_post_process + sqfs_serialize_fstree, walked with the real readers
+    def tree_name(self, short=True):
+        n = self.r.choice([1, 2, 3, 5, 12]) if short else self.r.choice([30, 100, 255, 256])
+        alpha = [c for c in range(0x21, 0x100) if c != 0x2f]
+        return bytes(self.r.choice(alpha) for _ in range(n))
+
+    def file_spec(self):
+        r = self.r
+        bs = 4096
+        fi, fo = r.choice([(NONE32, NONE32), (NONE32, NONE32), (0, 0), (3, 77)])
+        size = r.choice([0, 1, bs - 1, bs, bs + 1, 3 * bs + 5, 40 * bs])
+        n = self.block_count(size, bs, fi, fo)
+        words = ";".join(str(r.choice([0, 4096 | (1 << 24), 1000, 77])) for _ in range(n)) if n else "-"
+        if r.random() < 0.6:
+            return "b:%d:%d:%d:%d:%s" % (r.choice([96, 5000, (1 << 32) - 1]), fi, fo, size, words)
+        return "x:%d:%d:%d:%d:%d:%s" % (r.choice([96, (1 << 32) - 1, 1 << 32, (1 << 40) + 5]), size,
+                                        r.choice([0, 0, 4096, size]), fi, fo, words)
+
+    def gen_trees(self, count):
+        r = self.r
+        for it in range(count):
+            big = it % 3 == 2
+            specs, paths, dirs, leaves = [], set(), [b""], []
+            ids = [0, 1000, 65534, (1 << 32) - 1, r.randrange(1, 1 << 32), r.randrange(1, 1 << 32)]
+
+            def add(path, t, extra, perm=None, xattr=None):
+                specs.append((path, t, perm if perm is not None else r.choice([0o644, 0o755, 0, 0o7777]), r.choice(ids), r.choice(ids),
+                              r.choice([0, 1, 1 << 31, (1 << 32) - 1, r.randrange(0, 1 << 32)]),
+                              xattr if xattr is not None else r.choice([NONE32, NONE32, NONE32, 0, 7]), extra))
+                paths.add(path)
+
+            if r.random() < 0.4:
+                add(b"", "d", "-")                                            # explicit attributes for the root
+            nnodes = r.choice([3, 8, 20]) if not big else r.choice([150, 320])
+            for _ in range(nnodes):
+                parent = r.choice(dirs)
+                if r.random() < 0.15 and len(parent.split(b"/")) < 4:         # implicitly created parents
+                    parent = (parent + b"/" if parent else b"") + self.tree_name()
+                nm = self.tree_name(short=(r.random() < 0.9))
+                path = (parent + b"/" if parent else b"") + nm
+                if path in paths or any(path.startswith(q + b"/") and q not in dirs for q in paths):
+                    continue
+                if parent and parent not in dirs:
+                    if parent in paths:
+                        continue
+                    dirs.append(parent)                                       # implicit: defaults
+                    q = parent
+                    while b"/" in q:
+                        q = q.rsplit(b"/", 1)[0]
+                        if q not in dirs and q not in paths:
+                            dirs.append(q)
+                t = r.choice("dddfffflllbcps")
+                if t == "d":
+                    add(path, "d", "-"); dirs.append(path)
+                elif t == "f":
+                    add(path, "f", self.file_spec()); leaves.append(path)
+                elif t == "l":
+                    ln = r.choice([1, 3, 20, 255, 2000]) if not big else r.choice([1, 10, 100, 3000])
+                    add(path, "l", bytes(r.randrange(1, 256) for _ in range(ln)).hex()); leaves.append(path)
+                elif t in "bc":
+                    add(path, t, str(r.choice([0, 1281, (1 << 32) - 1]))); leaves.append(path)
+                else:
+                    add(path, t, "-"); leaves.append(path)
+            # hard links: to files, symlinks, devices, fifos, and to other hard links; in directories before and behind
+            links = []
+            for _ in range(r.choice([0, 1, 3, 6])):
+                if not leaves:
+                    break
+                tgt = r.choice(leaves + links)
+                parent = r.choice(dirs)
+                nm = self.tree_name()
+                path = (parent + b"/" if parent else b"") + nm
+                if path in paths or path in dirs:
+                    continue
+                add(path, "h", tgt.hex(), perm=0, xattr=NONE32)
+                links.append(path)
+            if big:                                                            # one large directory: extended inode, index
+                base = r.choice(dirs)
+                for k in range(r.choice([255, 256, 300])):
+                    path = (base + b"/" if base else b"") + b"e%04d" % k
+                    if path not in paths and path not in dirs:
+                        add(path, "p", "-")
+            toks = ["%s|%s|%d|%d|%d|%d|%d|%s" % (hx(p), t, perm, u, g, mt, xa, ex) for (p, t, perm, u, g, mt, xa, ex) in specs]
+            self.add("tree " + " ".join(toks), op="tree", specs=specs)
+        # refused trees
+        long_name = bytes([0x61]) * 257
+        self.add("tree %s|f|420|0|0|0|%d|b:96:%d:%d:0:-" % (hx(long_name), NONE32, NONE32, NONE32), op="tree", specs=None, expect="ret 4")
+        self.add("tree 61|d|493|0|0|0|%d|- 62|h|0|0|0|0|%d|61" % (NONE32, NONE32), op="tree", specs=None, expect="post failed")
+        self.add("tree 61|h|0|0|0|0|%d|62 62|h|0|0|0|0|%d|61" % (NONE32, NONE32), op="tree", specs=None, expect="post failed")
+        self.add("tree 61|f|420|0|0|0|%d|b:96:%d:%d:0:- 61|f|420|0|0|0|%d|b:96:%d:%d:0:-" % ((NONE32,) * 6), op="tree", specs=None,
+                 expect="add 1 failed")
+
+
 def generate(rng, quick):
     g = Gen(rng, quick)
     s = 1 if quick else 6
@@ -352,6 +446,7 @@ def generate(rng, quick):
     g.gen_meta(3 * s)
     g.gen_tables(3 * s)
     g.gen_xattr(6 * s)
+    g.gen_trees(12 * s)
     return g.ops
 
 
@@ -526,9 +621,175 @@ def spec_failures(meta, ans):
         elif op == "xsets":
             if "same=true" not in ans:
                 bad.append("xattr-set-read-back-differs")
-    except (IndexError, ValueError, KeyError) as e:
+        elif op == "tree":
+            bad.extend(tree_failures(meta, ans))
+    except (IndexError, ValueError, KeyError, AssertionError) as e:
         bad.append("unparsable-answer (%s)" % e)
     return bad
+
+
+
+ARITY = {"dir": 11, "file": 11, "slink": 9, "bdev": 8, "cdev": 8, "fifo": 7, "sock": 7, "xdir": 14, "xfile": 14, "xslink": 10,
+         "xbdev": 9, "xcdev": 9, "xfifo": 8, "xsock": 8}
+
+
+def parse_walk(tokens, pos):
+    """( name <inode desc> child* ) -> (node, next position); node = (name, desc tokens, children)"""
+    assert tokens[pos] == "("
+    name = tokens[pos + 1]
+    k = tokens[pos + 2]
+    desc = tokens[pos + 2:pos + 2 + ARITY[k]]
+    pos = pos + 2 + ARITY[k]
+    kids = []
+    while tokens[pos] == "(":
+        c, pos = parse_walk(tokens, pos)
+        kids.append(c)
+    assert tokens[pos] == ")"
+    return (name, desc, kids), pos + 1
+
+
+def inode_view(desc, ids):
+    """what a reader learns from an inode description: kind, perm, uid, gid, mtime, inum, nlink, xattr, payload"""
+    k = desc[0]
+    basic = k[1:] if k.startswith("x") else k
+    mode, ui, gi, mt, inum = map(int, desc[1:6])
+    f = desc[6:]
+    v = {"kind": basic, "mode": mode, "uid": ids[ui] if ui < len(ids) else None, "gid": ids[gi] if gi < len(ids) else None,
+         "mtime": mt, "inum": inum, "xattr": NONE32, "nlink": 1}
+    if k == "dir":
+        v.update(nlink=int(f[1]), parent=int(f[4]))
+    elif k == "xdir":
+        v.update(nlink=int(f[0]), parent=int(f[3]), xattr=int(f[6]))
+    elif k == "file":
+        v.update(payload=("f", int(f[0]), int(f[3]), 0, int(f[1]), int(f[2]), f[4]))
+    elif k == "xfile":
+        v.update(nlink=int(f[3]), xattr=int(f[6]), payload=("f", int(f[0]), int(f[1]), int(f[2]), int(f[4]), int(f[5]), f[7]))
+    elif k in ("slink", "xslink"):
+        v.update(nlink=int(f[0]), payload=("l", f[2]))
+        if k == "xslink":
+            v["xattr"] = int(f[3])
+    elif k in ("bdev", "cdev", "xbdev", "xcdev"):
+        v.update(nlink=int(f[0]), payload=("d", int(f[1])))
+        if k[0] == "x":
+            v["xattr"] = int(f[2])
+    else:
+        v["nlink"] = int(f[0])
+        if k[0] == "x":
+            v["xattr"] = int(f[1])
+    return v
+
+
+def tree_expectation(specs):
+    """the tree a reader must find: path -> attributes, computed from the specs alone"""
+    nodes = {b"": {"t": "d", "perm": 0o755, "uid": 0, "gid": 0, "mtime": 0, "xattr": NONE32, "extra": "-", "implicit": True}}
+    for (path, t, perm, u, g, mt, xa, ex) in specs:
+        if path == b"":
+            nodes[b""].update(perm=perm, uid=u, gid=g, mtime=mt, xattr=xa, implicit=False)
+            continue
+        comps = path.split(b"/")
+        for i in range(1, len(comps)):
+            q = b"/".join(comps[:i])
+            if q not in nodes:
+                nodes[q] = {"t": "d", "perm": 0o755, "uid": 0, "gid": 0, "mtime": 0, "xattr": NONE32, "extra": "-", "implicit": True}
+        if path in nodes:                                  # overwrite of an implicitly created directory
+            nodes[path].update(perm=perm, uid=u, gid=g, mtime=mt, xattr=xa, implicit=False)
+        else:
+            nodes[path] = {"t": t, "perm": 0o777 if t in "lh" else perm, "uid": u, "gid": g, "mtime": mt,
+                           "xattr": NONE32 if t == "h" else xa, "extra": ex, "implicit": False}
+
+    def resolve(p):
+        seen = 0
+        while nodes[p]["t"] == "h":
+            p = bytes.fromhex(nodes[p]["extra"])
+            seen += 1
+            if seen > len(nodes):
+                return None
+        return p
+    links = {}
+    for p, n in nodes.items():
+        if n["t"] == "h":
+            links[p] = resolve(p)
+    nlink = {}
+    for p, n in nodes.items():
+        if n["t"] == "d":
+            nlink[p] = 2 + sum(1 for q in nodes if q != b"" and (q.rsplit(b"/", 1)[0] if b"/" in q else b"") == p)
+        elif n["t"] != "h":
+            nlink[p] = 1 + sum(1 for q, tg in links.items() if tg == p)
+    return nodes, links, nlink
+
+
+TKIND = {"d": "dir", "f": "file", "l": "slink", "b": "bdev", "c": "cdev", "p": "fifo", "s": "sock"}
+
+
+def tree_failures(meta, ans):
+    if meta.get("specs") is None:
+        return [] if ans.startswith(meta["expect"]) else ["unrepresentable tree not refused (%s)" % ans[:60]]
+    t = ans.split()
+    if t[0] != "ret" or t[1] != "0":
+        return ["tree refused: " + ans[:80]]
+    bad = []
+    ids = list(map(int, [x for x in t if x.startswith("ids=")][0][4:].split(",")))
+    n_inodes = int(t[2][2:])
+    w = t.index("walk")
+    if t[-2:] != ["end", "0"]:
+        return ["walk failed: " + " ".join(t[-2:])]
+    root, _ = parse_walk(t, w + 1)
+    nodes, links, nlink = tree_expectation(meta["specs"])
+    seen_inum = {}
+    visited = set()
+
+    def check(path, node, parent_inum):
+        name, desc, kids = node
+        v = inode_view(desc, ids)
+        tgt = links.get(path, path)
+        if tgt is None or tgt not in nodes:
+            bad.append("unexpected link target"); return
+        exp = nodes[tgt]
+        visited.add(path)
+        want_mode = S_IF[TKIND[exp["t"]]] | exp["perm"]
+        if v["kind"] != TKIND[exp["t"]] or v["mode"] != want_mode:
+            bad.append("type/mode of %r" % path)
+        if v["uid"] != exp["uid"] or v["gid"] != exp["gid"]:
+            bad.append("owner of %r" % path)
+        if v["mtime"] != exp["mtime"]:
+            bad.append("mtime of %r" % path)
+        if v["nlink"] != nlink[tgt]:
+            bad.append("link count of %r: %s, wanted %s" % (path, v["nlink"], nlink[tgt]))
+        if v["xattr"] != exp["xattr"]:
+            bad.append("xattr index of %r" % path)
+        if not (1 <= v["inum"] <= n_inodes):
+            bad.append("inode number out of range")
+        if seen_inum.setdefault(v["inum"], tgt) != tgt:
+            bad.append("inode number %d used for two nodes" % v["inum"])
+        if exp["t"] == "l" and v.get("payload") != ("l", exp["extra"]):
+            bad.append("symlink target of %r" % path)
+        if exp["t"] in "bc" and v.get("payload") != ("d", int(exp["extra"])):
+            bad.append("device number of %r" % path)
+        if exp["t"] == "f":
+            e = exp["extra"].split(":")
+            words = e[-1].replace(";", ",")
+            want = ("f", int(e[1]), int(e[4]), 0, int(e[2]), int(e[3]), words) if e[0] == "b" else \
+                   ("f", int(e[1]), int(e[2]), int(e[3]), int(e[4]), int(e[5]), words)
+            if v.get("payload") != want:
+                bad.append("file layout of %r" % path)
+        if exp["t"] == "d":
+            if v["parent"] != parent_inum:
+                bad.append("parent of %r" % path)
+            want_names = sorted(q.rsplit(b"/", 1)[-1] for q in nodes if q != b"" and (q.rsplit(b"/", 1)[0] if b"/" in q else b"") == tgt)
+            got_names = [unhx(k[0]) for k in kids]
+            if got_names != want_names:
+                bad.append("entries of %r" % path)
+            else:
+                for k in kids:
+                    check((path + b"/" if path else b"") + unhx(k[0]), k, v["inum"])
+        elif kids:
+            bad.append("non-directory with entries")
+    check(b"", root, 0)
+    if visited != set(nodes):
+        bad.append("paths missing from the walk")
+    if len(set(seen_inum)) != n_inodes:
+        bad.append("inode count %d, %d distinct inodes reachable" % (n_inodes, len(set(seen_inum))))
+    return bad[:6]
 
 
 def nontrivial_key(meta, ans):
@@ -547,6 +808,9 @@ def nontrivial_key(meta, ans):
         return ("meta", ans.split()[0][:12], sum(map(len, meta["chunks"])) // 4096)
     if op == "xattr":
         return ("xattr", meta.get("what"), ans.count("0001") > 0, len(meta["sets"]))
+    if op == "tree":
+        n = len(meta["specs"]) if meta.get("specs") else 0
+        return ("tree", ans.split()[1] if len(ans.split()) > 1 else ans[:10], n // 8, " xdir " in ans, " xfile " in ans, len(ans) // 20000)
     return (op, meta.get("n"), len(ans) // 256)
 
 
